@@ -1,7 +1,7 @@
 PROP_ID = "C12"
 PROP = dict(
     imports=["Client.Store", "Client.Readers", "Corr.Run_C12"],
-    case_type="Run_C12.case", check="Run_C12.check", shrink_field="ops", race=True, max_reports=2,
+    case_type="Run_C12.case", check="Run_C12.check", shrink_field="ops", shrink=False, race=True, max_reports=2,
     harness_timeout={"quick": 170, "thorough": 10000},
     technique=("Rocq proof over the shared store model (interleaving semantics whose atomic steps are store.go's locked steps, requests split into begin/end; invariants over all event sequences; "
                "a decidable monitor proved sound) + REAL goroutines under the race detector, each scenario in its own process; the kernel evaluates the monitor on the recorded install order and read logs"),
@@ -11,7 +11,7 @@ PROP = dict(
                 "really served for that name, never missing an install completed before the read, and per reader and name the values follow the install order; the monitor reads_ok is sound for "
                 "these three clauses. Tied to the code by scenarios with 2-5 reader goroutines spinning on handles of declared, looked-up and start-up-cache names while the driver changes the service, "
                 "refreshes (two concurrent refreshers + a controlled ticker), looks up new names, HOLDS the service with a poll and a lookup in flight (readers must keep completing reads), runs failing "
-                "polls, runs an expiry sweep with a handle taken between snapshot and apply, and closes the store (reads go on); values are 200-1500 byte strings encoding (name, version) with a checksum "
+                "polls, runs an expiry sweep with a handle taken between snapshot and apply, re-activates OLDER versions (a value may be installed several times), makes the cache's Write FAIL during polls, during lookups and at the poller's final flush, and closes the store (reads go on, also after a failed final flush); values are 200-1500 byte strings encoding (name, version) with a checksum "
                 "and are verified whole by the reader; install order = the service's serve order; each read is logged with the number of installs known complete before it began; the kernel evaluates "
                 "the monitor. PARTIAL: data-race freedom and absence of torn values are runtime facts - tested with -race (GORACE halt_on_error; a report is a direct violation) and whole-value "
                 "verification, not proved."),
@@ -20,5 +20,5 @@ PROP = dict(
           "GOMAXPROCS cycling 2/4/8/16; non-trivial if reads were demanded during a hold with requests in flight, more than 5 installs and more than 10 logged reads; read logs are run-length compressed "
           "(an entry is logged when the value-id changes, or the floor changed and 3 ms passed) - every read is verified at run time"),
     explain="a reader saw a value not served for that name, went back to an older install, or missed an install completed before the read began (monitor, in the kernel); or a runtime fact: data race, panic in a handle, read blocked while requests were held, torn/foreign value",
-    assumptions=["versions of a secret only move forward in these scenarios (value-ids are distinct per name)", "polls fail only in phases without pending changes"],
+    assumptions=["the scripted service re-activates older versions (a value may occur several times in the install list; the monitor assigns occurrences greedily)", "polls fail only in phases without pending changes"],
 )
